@@ -1,5 +1,5 @@
 """C07 Disassembly is a complete, unambiguous rendering of the instruction stream."""
-import json, os, time
+import json, re, os, time
 from .common import *
 from .pcommon import BASE_ASSUMPTIONS
 
@@ -56,6 +56,14 @@ def run_check(tier, seed, replay=None):
     t0 = time.time()
     rep = Report("C07")
     build_harness()
+    # design level: the line format of Disasm.tla is injective on a bounded universe over the whole pinned grammar,
+    # and the vocabulary (opcode / enumerant / mask-bit names) is unambiguous
+    mc = None
+    if not replay:
+        mc = tlc_mc("MC_Disasm.tla", "MC_Disasm.cfg", "c07_mc", timeout=900, workers=2, env={"DISASMNAMES": NAMES})
+        m = re.search(r'"opcodes checked", (\d+), "of", (\d+)', open(os.path.join(BUILD, "c07_mc.mc.out")).read())
+        mc["opcodes_checked"] = int(m.group(1)) if m else 0
+        log("model MC_Disasm: %s" % mc)
     n, trace = run_disasm(rep, "C07", seed, 300 if tier == "quick" else 6000)
     tags = {}
     lines = 0
@@ -75,7 +83,9 @@ def run_check(tier, seed, replay=None):
     write_evidence("C07", tier, seed, {
         "states": n + 1, "transitions": n, "states_note": "states of the trace specification DisasmTrace (one per disassembled module)",
         "traces_validated_against_impl": n, "samples": [sample], "lines_validated": lines, "input_classes": tags, "exhaustive": False,
+        "model": {"module": "spec/MC_Disasm.tla", "config": "MC_Disasm.cfg", "opcodes_with_injective_line_format": (mc or {}).get("opcodes_checked"),
+                  "invariants": ["Injective", "OpNamesUnique", "EnumNamesUnique", "MaskNamesUnique", "MaskNamesCoverGrammar"]},
     }, BASE_ASSUMPTIONS + ["spec/DisasmNames.json: printed names of all mask bits, pinned from the pinned tree's Disassemble impls and cross-checked against the constant names",
         "the VALUE of tokens TLC cannot spell (large decimals, floats, escaped strings, OpenCL/GLSL instruction names) is decided by an independent reader in the harness that knows only the vocabulary; TLC compares what it reads with the module (NaN payloads excepted) and checks the token structure of every line itself",
-        "the generator name is checked for rspirv's own generator id; other tool ids only occur in hand-made headers"], time.time() - t0, len(rep.new))
+        "the generator tool name is checked for the registered ids 0..15 (names transcribed from the SPIR-V registry); the rendering of unregistered ids is not constrained"], time.time() - t0, len(rep.new))
     return rc
